@@ -32,6 +32,48 @@ func genPairs() {
 			emitQ(q, "d", "src=pairs")
 		}
 	}
+	genRelated()
+}
+
+// every pair of leaf constructs on ONE field, with values in every order relation, under every connective: two operands that are
+// each unremarkable and related (a lower and an upper limit, the same value twice, a value and its neighbour)
+func genRelated() {
+	ops := []string{":", "=", ":>", ":>=", ":<", ":<="}
+	nums := [][2]string{{"1", "5"}, {"5", "1"}, {"5", "5"}, {"1.5", "99"}, {"-3", "0"}, {"10", "20"}}
+	strs := [][2]string{{"b", "b"}, {"b", "B"}, {"abc", "abd"}, {"x", "\"x\""}, {"\"q r\"", "\"q  r\""}, {"5", "\"5\""}, {"w*", "w?"}, {"w*", "\"w*\""}}
+	conns := []string{" AND ", " OR ", " ", " AND NOT ", " OR -"}
+	emit := func(q string) {
+		emitQ(q, "", "src=related")
+		emitQ("("+q+") OR x:y", "d", "src=related")
+	}
+	for _, o1 := range ops {
+		for _, o2 := range ops {
+			for _, c := range conns {
+				for _, v := range nums {
+					emit("a" + o1 + v[0] + c + "a" + o2 + v[1])
+				}
+				if (o1 == ":" || o1 == "=") && (o2 == ":" || o2 == "=") {
+					for _, v := range strs {
+						emit("a" + o1 + v[0] + c + "a" + o2 + v[1])
+						emit("a" + o1 + v[0] + c + "b" + o2 + v[1])
+					}
+				}
+			}
+		}
+	}
+	// ranges next to comparisons and to each other on one field
+	for _, r := range []string{"[1 TO 5]", "{1 TO 5}", "[5 TO 1]", "[5 TO 5]", "[* TO 5]", "[1 TO *]", "[a TO c]", "[c TO a]"} {
+		for _, c := range conns {
+			emit("a:" + r + c + "a:>=1")
+			emit("a:<=5" + c + "a:" + r)
+			emit("a:" + r + c + "a:" + r)
+		}
+	}
+	// value lists with repeated and related values
+	for _, l := range []string{"(x OR x)", "(x OR y OR x)", "(x OR X)", "(1 OR 1)", "(1 OR 2 OR 1)", "(\"5\" OR 5)", "(x OR \"x\")", "(open OR closed OR open)"} {
+		emit("a:" + l)
+		emit("a:" + l + " AND a:x")
+	}
 }
 
 func countVerb(p string) int {
